@@ -25,11 +25,21 @@ type IPNode struct {
 	ID        string
 	Kind      string            // new | unmanaged | launched | node-appeared | registered | initialized | other
 	New       bool              // new NodeClaim of this scheduling pass
+	Deleting  bool              // existing node that is being removed (its reschedulable pods are part of the batch)
 	Labels    map[string]string // labels that do not depend on the realisation
 	Taints    []corev1.Taint    // taints kube-scheduler will (eventually) see
 	RawTaints []corev1.Taint    // taints incl. startup / ephemeral ones (alternative reading for nodeTaintsPolicy=Honor)
 	// Options: label tuples (over the enumerated keys) the launch of a new NodeClaim can produce. Existing nodes have none.
 	Options []map[string]string
+	// EmptiedKeys (classification only): keys whose final NodeClaim requirement is the empty set (reported as
+	// DoesNotExist) although neither the NodePool nor a pod on the claim asked for DoesNotExist.
+	EmptiedKeys map[string]bool
+	// ComplementKeys (classification only): keys on which the NodePool of a new NodeClaim, or of an in-flight NodeClaim
+	// that has no Node object yet, has an Exists / NotIn / Gt / Lt requirement, so that the value of the node's label
+	// cannot be foreseen from the NodePool (and no Node carries it yet).
+	ComplementKeys map[string]bool
+	// MultiValuedKeys (classification only): keys whose final NodeClaim requirement still admits several values.
+	MultiValuedKeys map[string]bool
 }
 
 // IPPod is a pod of the final world.
@@ -462,42 +472,46 @@ func (w *InterPod) negativeSuffix(ni int, key string) string {
 	return ":existing-node"
 }
 
-// minWithout: minimum over the domains whose name does not start with prefix.
-func minWithout(full map[string]int, prefix string) (int, bool) {
-	min, any, dropped := int(^uint(0)>>1), false, false
-	for d, c := range full {
-		if strings.HasPrefix(d, prefix) {
-			dropped = true
-			continue
-		}
-		any = true
-		if c < min {
-			min = c
-		}
+func requiredNodeTerms(p *corev1.Pod) int {
+	if p.Spec.Affinity == nil || p.Spec.Affinity.NodeAffinity == nil || p.Spec.Affinity.NodeAffinity.RequiredDuringSchedulingIgnoredDuringExecution == nil {
+		return 0
 	}
-	return min, any && dropped
+	return len(p.Spec.Affinity.NodeAffinity.RequiredDuringSchedulingIgnoredDuringExecution.NodeSelectorTerms)
 }
 
-// minDomainsSibling: some pod of the batch carries a spread constraint identical to g's up to minDomains.
-func (w *InterPod) minDomainsSibling(g *spreadGroup) string {
+// relaxedMember (classification only): some carrier of g was placed after a required node-affinity term was relaxed away.
+func (w *InterPod) relaxedMember(g *spreadGroup) bool {
+	for _, m := range g.members {
+		if requiredNodeTerms(w.Pods[m].Copy) < requiredNodeTerms(w.Pods[m].Orig) {
+			return true
+		}
+	}
+	return false
+}
+
+// minDomainsSiblings: the minDomains values of the spread constraints of the batch that are identical to g's otherwise.
+func (w *InterPod) minDomainsSiblings(g *spreadGroup) []*int32 {
 	md := func(c *corev1.TopologySpreadConstraint) int32 {
 		if c.MinDomains == nil {
 			return -1
 		}
 		return *c.MinDomains
 	}
+	seen := map[int32]bool{}
+	var out []*int32
 	for _, p := range w.Batch {
 		for i := range p.Spec.TopologySpreadConstraints {
 			c := &p.Spec.TopologySpreadConstraints[i]
 			if c.WhenUnsatisfiable != corev1.DoNotSchedule && !w.Respect {
 				continue
 			}
-			if md(c) != md(&g.c) && SpreadCoreSig(p, c) == g.coreSig {
-				return podRef(p)
+			if md(c) != md(&g.c) && !seen[md(c)] && SpreadCoreSig(p, c) == g.coreSig {
+				seen[md(c)] = true
+				out = append(out, c.MinDomains)
 			}
 		}
 	}
-	return ""
+	return out
 }
 
 // sameKeyConstraints counts the topology constraints on key that shape the placement of pod pi: its own spreads and
@@ -540,10 +554,26 @@ func (w *InterPod) sameKeyConstraints(pi int, key string) int {
 			}
 		}
 	}
+	// inverse direction: required anti-affinity terms of running pods and of EVERY pod of the batch (placed or not:
+	// the scheduler tracks them from the start of the pass) that select this pod
+	me := w.Pods[pi].Orig
 	seen := map[string]bool{}
-	for _, a := range w.aa {
-		if a.q == pi && a.key == key && a.p != pi {
-			k := fmt.Sprintf("%s|%d", w.Pods[a.p].Orig.Spec.Affinity.PodAntiAffinity.RequiredDuringSchedulingIgnoredDuringExecution[a.term].String(), 0)
+	others := append([]*corev1.Pod{}, w.Batch...)
+	for _, q := range w.Pods {
+		if !q.Placed {
+			others = append(others, q.Orig)
+		}
+	}
+	for _, o := range others {
+		if o.UID == me.UID {
+			continue
+		}
+		for _, t := range requiredAntiAffinity(o) {
+			t := t
+			if t.TopologyKey != key || !termNamespaces(w.NS, o.Namespace, &t)[me.Namespace] || !selectorOf(t.LabelSelector).Matches(labels.Set(me.Labels)) {
+				continue
+			}
+			k := t.String() + "|" + fmt.Sprint(termNamespaces(w.NS, o.Namespace, &t))
 			if !seen[k] {
 				seen[k] = true
 				n++
@@ -555,7 +585,7 @@ func (w *InterPod) sameKeyConstraints(pi int, key string) int {
 
 // noKeyClass names the class of "constraint carrier on a node without the topology label".
 func (w *InterPod) noKeyClass(kind string, pi, ni int, key string) string {
-	if w.sameKeyConstraints(pi, key) >= 2 {
+	if w.sameKeyConstraints(pi, key) >= 2 || w.Nodes[ni].EmptiedKeys[key] {
 		// several topology constraints on one key each pick a domain; an empty intersection is represented like
 		// DoesNotExist and accepted by a node (claim) that lacks the label: root cause of the recorded finding
 		return "unsat-conjunction-treated-as-DoesNotExist"
@@ -565,6 +595,13 @@ func (w *InterPod) noKeyClass(kind string, pi, ni int, key string) string {
 		return "constraint-carrier-on-existing-node-without-topology-label:domain-assumed-from-a-pod's-NotIn-requirement"
 	}
 	return fmt.Sprintf("%s-carrier-on-node-without-topology-key:%s%s", kind, keyKind(key), sfx)
+}
+
+func orElse(a, b string) string {
+	if a != "" {
+		return a
+	}
+	return b
 }
 
 func podRef(p *corev1.Pod) string { return p.Namespace + "/" + p.Name }
@@ -609,6 +646,7 @@ func (w *InterPod) checkAffinity(lbls []map[string]string) []IPFinding {
 	type edge struct{ from, to int }
 	var edges []edge
 	starter := map[int]bool{}
+	cycKey := map[int]string{}
 	for _, a := range w.aff {
 		w.Counters["affinity_term_checks"]++
 		np := w.Pods[a.p].Node
@@ -630,11 +668,20 @@ func (w *InterPod) checkAffinity(lbls []map[string]string) []IPFinding {
 			w.Counters["affinity_satisfied_by_other_pod"]++
 			continue
 		}
+		// classification only: a matching pod placed in this pass on a node WITHOUT the label was booked by the scheduler in
+		// a fictitious domain; what follows from that shares its root cause
+		fict := ""
+		for _, j := range a.matches {
+			nq := w.Pods[j].Node
+			if _, okq := domain(&w.Nodes[nq], lbls[nq], a.key); !okq && w.Pods[j].Placed && !w.Nodes[nq].New {
+				fict = w.noKeyClass("affinity", j, nq, a.key)
+			}
+		}
 		term := requiredAffinity(p)[a.term]
 		base := map[string]any{"pod": podRef(p), "podLabels": p.Labels, "node": w.Nodes[np].ID, "term": term, "domain": dp, "nodeHasKey": okp}
-		if !a.self {
+		if !a.self && okp {
 			out = append(out, IPFinding{
-				Class:  fmt.Sprintf("affinity-unsatisfied:%s:%s", keyKind(a.key), map[bool]string{true: "new", false: "existing"}[w.Nodes[np].New]),
+				Class:  orElse(fict, fmt.Sprintf("affinity-unsatisfied:%s:%s", keyKind(a.key), map[bool]string{true: "new", false: "existing"}[w.Nodes[np].New])),
 				ID:     fmt.Sprintf("aff|%s|%d", p.UID, a.term),
 				What:   fmt.Sprintf("pod %s has a required affinity term (key %s) it does not match itself, but its domain %q (node %s) holds no matching pod", podRef(p), a.key, dp, w.Nodes[np].ID),
 				Detail: base,
@@ -653,6 +700,7 @@ func (w *InterPod) checkAffinity(lbls []map[string]string) []IPFinding {
 		// first pod of a group: allowed only when no matching pod exists in any domain the pod can use
 		w.Counters["affinity_self_start"]++
 		starter[a.p] = true
+		cycKey[a.p] = a.key
 		cp := w.Pods[a.p].Copy
 		for _, j := range a.matches {
 			nq := w.Pods[j].Node
@@ -667,7 +715,7 @@ func (w *InterPod) checkAffinity(lbls []map[string]string) []IPFinding {
 					d[k] = v
 				}
 				out = append(out, IPFinding{
-					Class: fmt.Sprintf("affinity-self-start-despite-running-match:%s", keyKind(a.key)),
+					Class: orElse(fict, fmt.Sprintf("affinity-self-start-despite-running-match:%s", keyKind(a.key))),
 					ID:    fmt.Sprintf("affstart|%s|%d", p.UID, a.term),
 					What: fmt.Sprintf("pod %s (matching its own required affinity term, key %s) starts domain %q although running pod %s matches the term in domain %q, which the pod can use",
 						podRef(p), a.key, dp, podRef(q), dq),
@@ -723,8 +771,25 @@ func (w *InterPod) checkAffinity(lbls []map[string]string) []IPFinding {
 				names = append(names, podRef(w.Pods[x].Orig))
 				where = append(where, fmt.Sprintf("%s on %s", w.Pods[x].Orig.Name, w.Nodes[w.Pods[x].Node].ID))
 			}
+			class := "affinity-self-start-in-separate-domains"
+			for _, x := range cyc {
+				nx := &w.Nodes[w.Pods[x].Node]
+				onNode := 0
+				for _, q := range w.Pods {
+					if q.Node == w.Pods[x].Node {
+						onNode++
+					}
+				}
+				// (requirements only narrow: a claim that is single-valued now but took further pods after the starter may
+				// have been multi-valued when the starter was committed)
+				if nx.New && (nx.MultiValuedKeys[cycKey[x]] || onNode > 1) {
+					// a self-starter sits on a NodeClaim whose domain is still multi-valued: it is not counted, so the next pod
+					// of the group believes no match exists anywhere
+					class = "affinity-self-start-in-separate-domains:first-pod-on-claim-with-multi-valued-domain-is-not-counted"
+				}
+			}
 			out = append(out, IPFinding{
-				Class:  "affinity-self-start-in-separate-domains",
+				Class:  class,
 				ID:     "affcycle|" + strings.Join(names, ","),
 				What:   fmt.Sprintf("pods %v each match their own required affinity term and each started a domain of its own although the others are in domains they can use: whatever the commit order, one of them was placed in a domain without a match while a match existed elsewhere (%v)", names, where),
 				Detail: map[string]any{"pods": names, "placement": where},
@@ -735,11 +800,14 @@ func (w *InterPod) checkAffinity(lbls []map[string]string) []IPFinding {
 	return out
 }
 
-type spreadReading struct{ placedAffinity, requireAllKeys, rawTaints bool }
+type spreadReading struct{ placedAffinity, requireAllKeys, rawTaints, deletingGone bool }
 
 func (w *InterPod) eligible(g *spreadGroup, rep int, n *IPNode, l map[string]string, rd spreadReading) bool {
 	if _, ok := domain(n, l, g.key); !ok {
 		return false
+	}
+	if rd.deletingGone && n.Deleting {
+		return false // reading: the node is on its way out and no longer part of the cluster kube-scheduler binds in
 	}
 	if rd.requireAllKeys {
 		for _, k := range g.allKeys {
@@ -798,18 +866,27 @@ func merged(a, b map[string]string) map[string]string {
 func (w *InterPod) checkSpread(lbls []map[string]string) []IPFinding {
 	var out []IPFinding
 	readings := []spreadReading{}
-	for i := 0; i < 8; i++ {
-		readings = append(readings, spreadReading{i&1 != 0, i&2 != 0, i&4 != 0})
+	anyDeleting := false
+	for i := range w.Nodes {
+		anyDeleting = anyDeleting || w.Nodes[i].Deleting
+	}
+	for i := 0; i < 16; i++ {
+		if i&8 != 0 && !anyDeleting {
+			continue
+		}
+		readings = append(readings, spreadReading{i&1 != 0, i&2 != 0, i&4 != 0, i&8 != 0})
 	}
 	for gi, g := range w.groups {
 		rep := g.members[0]
 		p := w.Pods[rep].Orig
 		// members on nodes without the topology key: kube-scheduler never admits that
+		noKey := ""
 		for _, m := range g.members {
 			nm := w.Pods[m].Node
 			if _, ok := domain(&w.Nodes[nm], lbls[nm], g.key); !ok {
+				noKey = w.noKeyClass("spread", m, nm, g.key)
 				out = append(out, IPFinding{
-					Class:  w.noKeyClass("spread", m, nm, g.key),
+					Class:  noKey,
 					ID:     fmt.Sprintf("spreadnokey|%s|%d", w.Pods[m].Orig.UID, gi),
 					What:   fmt.Sprintf("pod %s carries a DoNotSchedule spread constraint on key %s but is placed on node %s, which has no such label", podRef(w.Pods[m].Orig), g.key, w.Nodes[nm].ID),
 					Detail: map[string]any{"pod": podRef(w.Pods[m].Orig), "constraint": g.c, "node": w.Nodes[nm].ID, "nodeLabels": lbls[nm]},
@@ -833,7 +910,8 @@ func (w *InterPod) checkSpread(lbls []map[string]string) []IPFinding {
 			cntG := map[string]int{}  // running matching pods + matching members of G
 			recv := map[string]bool{} // domains that received a member of G
 			elig := make([]bool, len(w.Nodes))
-			forceZero := ""
+			forceZero, fzComplement := "", false
+			foreseen := map[string]bool{} // classification only: domains not owed to a new node of a pool with Exists / NotIn on the key
 			for ni := range w.Nodes {
 				n := &w.Nodes[ni]
 				if lbls[ni] == nil {
@@ -844,6 +922,9 @@ func (w *InterPod) checkSpread(lbls []map[string]string) []IPFinding {
 					d, _ := domain(n, lbls[ni], g.key)
 					if _, ok := full[d]; !ok {
 						full[d] = 0
+					}
+					if !n.ComplementKeys[g.key] {
+						foreseen[d] = true
 					}
 				}
 			}
@@ -882,6 +963,7 @@ func (w *InterPod) checkSpread(lbls []map[string]string) []IPFinding {
 					d, _ := domain(n, l, g.key)
 					if _, ok := full[d]; !ok {
 						forceZero = fmt.Sprintf("new node %s can open empty eligible domain %q", n.ID, d)
+						fzComplement = n.ComplementKeys[g.key]
 						break
 					}
 				}
@@ -932,37 +1014,52 @@ func (w *InterPod) checkSpread(lbls []map[string]string) []IPFinding {
 					}
 					class := fmt.Sprintf("spread-maxskew-exceeded:%s%s", keyKind(g.key), quals)
 					// ---- root-cause classification (names the key; never decides the verdict) ----
-					if sib := w.minDomainsSibling(g); sib != "" {
-						class = "spread-maxskew-exceeded:minDomains-lost-when-constraints-differing-only-in-minDomains-share-a-topology-group"
-					} else if minNoFresh, ok := minWithout(full, "fresh-"); ok && (g.c.MinDomains == nil || true) && cntG[d]-minNoFresh <= int(g.c.MaxSkew) && forceZero == "" {
-						class = "spread-maxskew-exceeded:new-node-of-pool-with-Exists-or-NotIn-custom-key-opens-unforeseen-domain"
-					} else if !g.honorAff {
-						// classification only (never the verdict): does the excess vanish when the global minimum is taken
-						// over the domains the carrier itself may use, as if nodeAffinityPolicy were Honor?
-						minOwn, any := int(^uint(0)>>1), false
+					minOver := func(keep func(string) bool, extraZero bool, md *int32) (int, bool) {
+						m, n := int(^uint(0)>>1), 0
 						for dd, c := range full {
-							if usable(w.Pods[rep].Copy, g.key, dd) {
-								any = true
-								if c < minOwn {
-									minOwn = c
+							if keep(dd) {
+								n++
+								if c < m {
+									m = c
 								}
 							}
 						}
-						nOwn := 0
+						if n == 0 {
+							return 0, false
+						}
+						if extraZero || (md != nil && n < int(*md)) {
+							m = 0
+						}
+						return m, true
+					}
+					switch {
+					case noKey != "":
+						// some carriers sit on nodes without the label: Karpenter booked them in a fictitious domain, the
+						// excess elsewhere follows from that (same root cause, same key)
+						class = noKey
+					case w.relaxedMember(g):
+						// a carrier's copy lost a required node-affinity OR-term: Topology.Update then builds a NEW spread group
+						// (the node filter is part of the group's identity) whose counts start from the running pods only
+						class = "spread-maxskew-exceeded:spread-group-rebuilt-after-relaxing-a-node-affinity-term-forgets-pods-placed-in-this-pass"
+					default:
+						// does the excess vanish without the domains that only exist on new / in-flight nodes of pools whose
+						// requirement on the key is Exists / NotIn (their label value cannot be foreseen)?
+						// (an unforeseeable domain that holds a matching pod became known to the scheduler when that pod was committed)
+						seen := func(dd string) bool { return foreseen[dd] || full[dd] > 0 }
+						unseen := fzComplement
 						for dd := range full {
-							if usable(w.Pods[rep].Copy, g.key, dd) {
-								nOwn++
-							}
+							unseen = unseen || !seen(dd)
 						}
-						if g.c.MinDomains != nil && nOwn < int(*g.c.MinDomains) {
-							minOwn = 0
-						}
-						if any && cntG[d]-minOwn <= int(g.c.MaxSkew) {
+						m1, ok1 := minOver(seen, forceZero != "" && !fzComplement, g.c.MinDomains)
+						m2, ok2 := minOver(func(dd string) bool { return foreseen[dd] }, forceZero != "" && !fzComplement, g.c.MinDomains)
+						// (only a custom key: the values of zone / capacity-type come from the offerings and are registered as domains)
+						if keyKind(g.key) == "custom" && ((ok1 && unseen && cntG[d]-m1 <= int(g.c.MaxSkew)) || (ok2 && (len(foreseen) < len(full) || fzComplement) && cntG[d]-m2 <= int(g.c.MaxSkew))) {
+							class = "spread-maxskew-exceeded:unforeseen-domain-on-new-or-in-flight-node-of-pool-with-Exists-or-NotIn-on-the-custom-key"
+						} else if m, ok := minOver(func(dd string) bool { return usable(w.Pods[rep].Copy, g.key, dd) }, false, g.c.MinDomains); !g.honorAff && ok && cntG[d]-m <= int(g.c.MaxSkew) {
+							// does it vanish when the global minimum is taken over the domains the carrier itself may use, as if
+							// nodeAffinityPolicy were Honor?
 							class = "spread-maxskew-exceeded:nodeAffinityPolicy=Ignore:minimum-taken-over-carrier-admissible-domains-only"
 						}
-					}
-					if strings.HasPrefix(forceZero, "new node") && strings.Contains(forceZero, "\"fresh-") {
-						class = "spread-maxskew-exceeded:new-node-of-pool-with-Exists-or-NotIn-custom-key-opens-unforeseen-domain"
 					}
 					bad = &IPFinding{
 						Class: class,
@@ -979,7 +1076,16 @@ func (w *InterPod) checkSpread(lbls []map[string]string) []IPFinding {
 				flaggedAll = false
 				break
 			}
-			if worst == nil {
+			// the class is named after a root cause when any reading attributes the excess to one
+			generic := func(c string) bool {
+				for _, k := range []string{"zone", "hostname", "custom", "capacity-type"} {
+					if strings.HasPrefix(c, "spread-maxskew-exceeded:"+k) {
+						return true
+					}
+				}
+				return false
+			}
+			if worst == nil || (generic(worst.Class) && !generic(bad.Class)) {
 				worst = bad
 			}
 		}
